@@ -48,6 +48,12 @@ func exactCase(rec *mon.Recorder, c int) {
 		cfg.Ef = n + rng.Intn(5)
 	}
 	style := rng.Intn(5) // 0 generic, 1 clustered, 2 collinear, 3 duplicates, 4 all on one level
+	if c%8 == 6 && cfg.M >= 4 {
+		// a smaller link budget for the upper levels only (the level-0 budget is not given and stays 2M): links above
+		// level 0 are pruned, none at level 0 is, so the collection is still within the bound of the property
+		cfg.Mmax = 1 + (c/8)%(cfg.M/2)
+		rec.Count("exact_cases_with_a_smaller_upper_level_budget", 1)
+	}
 	idx, sp := cfg.New()
 	ref := hx.Ref{}
 	var hist []ins
